@@ -2,14 +2,16 @@ import FormulaicVerif.Model.Parser
 import FormulaicVerif.Spec.Wilkinson
 import FormulaicVerif.Proofs.ShuntComplete
 import FormulaicVerif.Proofs.C01
+import FormulaicVerif.Proofs.C01Grammar
 /-! # C01 — Formula strings denote exactly the documented Wilkinson term algebra
 
 Property theorems only (helpers: `Proofs/ShuntComplete.lean`, `Proofs/C01.lean`). They are about
 the very definitions the correspondence engine `c01` runs (`Model/{Tokenize,TokenOps,Shunt,Eval,Parser}.lean`).
 
 What is proved, for ALL inputs: the live operator table is the documented one (all 8 flag subsets);
-the shunting-yard returns the documented tree for every expression of the arithmetic grammar
-(unbounded nesting); sign-run collapsing keeps every other operator character in place and reduces
+the shunting-yard returns the documented tree for every expression of the documented arithmetic
+grammar (`grammar_parses`: Sum/Prod/Inter/Pow/Atom levels, unbounded nesting and chains; via the more
+general `shunt_complete`); the token-level intercept insertion for one-sided formulas; sign-run collapsing keeps every other operator character in place and reduces
 each run by parity; the documented spelling identities hold on ordered term sets; the final ordering
 is a stable sort by interaction degree.
 
@@ -37,6 +39,20 @@ documented tree `strip e` — any nesting depth, any number of operators, prefix
 theorem shunt_complete (tab : OpTable) (e : E) (hwf : WF tab e) (hg : Guard none e) :
     tokensToAst tab (lin e) = .ok (some (strip e)) :=
   parse_lin tab e hwf hg
+
+/-- C01.3'  **Every expression of the documented grammar parses to its documented tree.** The grammar of
+the arithmetic fragment by precedence levels (`Proofs/C01Grammar.lean`):
+`Sum := [sign] Prod | Sum (+|-) Prod`, `Prod := Inter | Prod (*|/|%in%) Inter`,
+`Inter := Pow | Inter : Pow`, `Pow := Atom | Atom (**|^) Pow`, `Atom := token | ( Sum )` —
+left-associative except `**`/`^`, unbounded nesting and chain lengths, optional leading unary sign.
+For every such expression `s`, with the operator table the LIVE resolver builds for any of the 8
+feature-flag subsets, the shunting-yard applied to the token sequence of `s` returns exactly the
+tree in which each operator has the operands the documented precedence and associativity give it. -/
+theorem grammar_parses (twosided multipart multistage : Bool) (s : Proofs.C01Grammar.Sum) :
+    tokensToAst (Gen.defaultTable twosided multipart multistage) (lin (Proofs.C01Grammar.toE s))
+      = .ok (some (strip (Proofs.C01Grammar.toE s))) := by
+  rw [table_is_documented]
+  exact Proofs.C01Grammar.grammar_parses twosided multipart multistage s
 
 private def tA : Tok := { text := ['a'], kind := some .name }
 private def tB : Tok := { text := ['b'], kind := some .name }
